@@ -10,7 +10,10 @@ import KyupyVerif.Gen.Tables
 * s0, s1 = the rows `s[0]`, `s[1]` before the call: one `,`-separated token per `s_nodes` position, each a string with one
            code digit per lane (bit i of the digit = plane i, planes ≥ mdim dropped); `~` for an empty `s`
 * dump   = canonical dump of `harness/circ.py: dump_net` (`nodes ; lines ; io`, blanks allowed)
-Answer: `<pippi_s_locs>;<poppo_s_locs>;<ppio_s_locs>;<s0>;<s1>` after `cycleKA k` (Model/Cycle.lean), rows in the input format. -/
+Answer: `<pippi_s_locs>;<poppo_s_locs>;<ppio_s_locs>;<s0>;<s1>` after `cycleKA k` (Model/Cycle.lean), rows in the input format.
+
+`cyclecert <c_locs csv> <dump...>` — the decidable side conditions of C01 `cycle_on_memory` on the real table:
+`outs=<stateOutsB> zero=<zeroCapB>`. -/
 namespace KV.Drv.Cycle
 open KV KV.Sig KV.Cycle
 
@@ -96,6 +99,12 @@ def handle (cmd : String) (args : List String) : Option String :=
       else runLanes sem8 merge8 V3.zero V3.ofCode V3.code ops T n k r0 r1
     some s!"{showNats (T.pippi.map (·.1))};{showNats (T.poppo.map (·.1))};{showNats T.ppio};{rows}"
   | "cycle", _ => some "bad-args"
+  | "cyclecert", locs :: dump =>
+    -- side conditions of C01 `cycle_on_memory` on the real `c_locs`
+    let net := parseNet (" ".intercalate dump)
+    let p : MapIn := { net := net, strip := false, ops := [], starts := [], caps := #[], cLen := 0, capsMin := 1,
+                       locs := ((locs.splitOn ",").filter (· ≠ "") |>.map String.toInt!).toArray }
+    some s!"outs={if stateOutsB net then 1 else 0} zero={if zeroCapB p then 1 else 0}"
   | _, _ => none
 
 end KV.Drv.Cycle
